@@ -985,6 +985,7 @@ class FnTranslator:
         self.calls = set()
         self.ret_ref = False
         self.lock_held = []
+        self.svd_vars = {}
 
     # -- helpers -----------------------------------------------------------------------
     def rule(self, r):
@@ -1329,11 +1330,49 @@ class FnTranslator:
         self.rule('for loop with a compile-time trip count indexing Eigen objects by its counter: unrolled at extraction')
         return out
 
+    def fixed_eigen_operand(self, n):
+        """innermost fixed-size Eigen operand under conversions to a dynamic-size type (Matrix2d -> MatrixXd argument)"""
+        n = self.strip(n)
+        for _ in range(8):
+            try:
+                if parse_type(node_type(n))[0][0] == 'eig':
+                    return n
+            except ExtractError:
+                pass
+            kids = [c for c in self.inner(n) if self.strip(c)['kind'] != 'CXXDefaultArgExpr']
+            if len(kids) != 1:
+                break
+            n = self.strip(kids[0])
+        self.err(n, 'no fixed-size Eigen operand found')
+
+    def svd_decl(self, d):
+        """Eigen::JacobiSVD<...> svd(M, options) for a fixed 2x2 M: the decomposition enters by its ASSUMED contract; its results are the
+        uninterpreted functions svd2_s0/s1 (singular values) and svd2_u00..u11 (matrixU) of the four coefficients of M"""
+        init = self.inner(d)
+        if not init:
+            self.err(d, 'JacobiSVD without a matrix')
+        args = [a for a in self.inner(self.strip(init[0])) if self.strip(a)['kind'] != 'CXXDefaultArgExpr']
+        m = self.eig(self.fixed_eigen_operand(args[0]))
+        if (m.rows, m.cols) != (2, 2):
+            self.err(d, 'JacobiSVD of a %dx%d matrix has no contract here' % (m.rows, m.cols))
+        out = []
+        coeffs = []
+        for i in range(2):
+            for j in range(2):
+                nm = self.tmp(m.st)
+                out.append(('decl', nm, m.st, m.get(i, j)))
+                coeffs.append(('var', nm, m.st))
+        self.svd_vars[d['id']] = (coeffs, m.st)
+        self.rule('Eigen::JacobiSVD of a fixed 2x2 matrix -> assumed contract (uninterpreted svd2_* of the four coefficients)')
+        return self.flush() + out
+
     def vardecl(self, d):
         if d['kind'] != 'VarDecl':
             if d['kind'] in ('TypedefDecl', 'TypeAliasDecl', 'UsingDecl', 'StaticAssertDecl'):
                 return []
             self.err(d, 'unsupported declaration')
+        if 'JacobiSVD<' in node_type(d):
+            return self.svd_decl(d)
         t, is_ref, is_const = parse_type(node_type(d))
         t = self.fix_type(t)
         name = d['name']
@@ -2702,6 +2741,14 @@ class FnTranslator:
                 self.err(n, 'comma initialiser arity')
             self.rule('eigen: comma initialiser expanded row-major')
             return EigVal(t[1], t[2], t[3], lambda i, j: vals[i * t[3] + j])
+        o0 = self.strip(obj)
+        while o0['kind'] in ('ImplicitCastExpr', 'ParenExpr') and self.inner(o0):
+            o0 = self.strip(self.inner(o0)[0])
+        if o0['kind'] == 'DeclRefExpr' and o0.get('referencedDecl', {}).get('id') in self.svd_vars and name in ('singularValues', 'matrixU'):
+            coeffs, st = self.svd_vars[o0['referencedDecl']['id']]
+            if name == 'singularValues':
+                return EigVal(st, 2, 1, lambda i, j: ('call', 'svd2_s%d' % i, list(coeffs), st))
+            return EigVal(st, 2, 2, lambda i, j: ('call', 'svd2_u%d%d' % (i, j), list(coeffs), st))
         a = self.eig(obj)
         if name in EIGEN_PASS:
             r = EigVal(a.st, a.rows, a.cols, a.get, lv=a.lv)
